@@ -1,18 +1,21 @@
 #!/bin/bash
 # Re-runs every seeded change and every mutant against the check(s) that should catch it.
-cd /verif
+# Works on /repo and /verif by default; set MUT_REPO / MUT_VERIF / MUT_OUT to run on scratch copies
+# (a clone of /repo and a copy of /verif) in parallel with other work.
+VH="${MUT_VERIF:-$(cd "$(dirname "$0")/.." && pwd)}"
+cd "$VH" || exit 2
 for d in seeded/*/; do
   n=$(basename $d); id=${n%%-*}
   # some seeds are caught by a neighbouring property's check (see seeded/README.md)
   case $n in C12-b) ids="C10";; *) ids="$id";; esac
-  tools/mutant.sh $d/patch.diff $ids | cut -c1-150
+  echo "$n: $(tools/mutant.sh $d/patch.diff $ids | cut -c1-170)"
 done
 for m in mutants/*.diff; do
   n=$(basename $m .diff)
   case $n in
-    revert-fix-c18-*) id=C18;; revert-fix-gv) id=C01;; revert-fix-c*) id=$(echo $n | sed 's/revert-fix-c\([0-9]*\)/C\1/');;
+    revert-fix-c18-*) id=C18;; revert-fix-gv) id=C01;; revert-fix-load-model-leftover) id="C04 C01";; revert-fix-c*) id=$(echo $n | sed 's/revert-fix-c\([0-9]*\)/C\1/');;
     c03-setter-coupling) id="C20 C03";;
     c[0-9][0-9]-*) id=C${n:1:2};;
   esac
-  tools/mutant.sh $m $id | cut -c1-150
+  tools/mutant.sh $m $id | cut -c1-170
 done
